@@ -110,5 +110,13 @@ claim("C11", "model_checking",
       "state ahead must be (rho0 r^-omega, 0, 0) with the right-hand side computed by TLC from the user's parameters.",
       MEAS, TECH, "DESIGN.md 9 C11")
 
+claim("C13", "model_checking",
+      "Burn-time campaign (Kenamond 1-3 in 2-D and 3-D, DSD cylindrical expansion; detonator positions / times, radii, speeds, curvature coefficients enumerated by TLC under the "
+      "documented admissibility conditions): straight scans through the explosive incl. across the material interface, across the shadow boundary and exactly behind the obstacle; "
+      "per point TLC checks the operands of the first-arrival laws of spec/Profile.tla: burn time at a detonator = its detonation time, never before the first detonation, "
+      "|dt| <= |dx| / D(local material) between consecutive scan points (continuity across interfaces and the shadow boundary included), |grad t| D_local = 1 "
+      "(DSD: 1/(D_CJ - alpha/r)) where two finite-difference steps agree (kinks of the min/max composition are skipped).",
+      MEAS, TECH, "DESIGN.md 9 C13")
+
 for p in [ "C07", "C08", "C09", "C10", "C11", "C12", "C13", "C14", "C15", "C16", "C18", "C19", "C20"]:
     pending(p, "check under construction in this round (design in DESIGN.md section 9); not claimed until it runs soundly on the unchanged tree")
